@@ -35,7 +35,7 @@ def run_demo():
         shutil.copy(d, f"{wt}/tests/{name}.rs")
         rc, out = sh(f"cargo test --test {name} --offline 2>&1 | tail -40")
         # cargo test exit code is lost by the pipe: look at the summary
-        ok = ("test result: ok" in out) and ("FAILED" not in out) and ("error" not in out.split("test result")[0][-400:] if "test result" in out else False)
+        ok = ("test result: ok" in out) and ("FAILED" not in out) and ("could not compile" not in out)
         os.remove(f"{wt}/tests/{name}.rs")
         return ok, out[-1500:]
     else:
